@@ -38,7 +38,9 @@ RULE = ("sessions = handler programs over the loop API (enqueue / raise / exit /
         "process_signals / registrations, guarded by invocation counters) + top-level calls (harness/loop_gen.py: general, "
         "ties, well-bracketed nesting to depth 4, malformed stream; harness/c20_gen.py: scheduler-like render/close chains with "
         "modal nesting, about a third of them in the fragment of C20_agree_partial) + the witnesses and scheduler scenarios of "
-        "corpus/glib/witnesses.py; each run four ways (model/implementation x MainLoop/GLibEventLoop over real libglib); "
+        "corpus/glib/witnesses.py; second family: APPLICATION sessions (harness/screen_gen.py gen_case + gen_focus_case: screen tables, stack "
+        "operations, modal pushes from refresh/show/input, typed lines, quit dialogs) on the real App over both loops and on ScreenSem over both "
+        "loop models, non-trivial = both real loops show >= 2 screens, return from a modal push and deliver a typed line; each run four ways (model/implementation x MainLoop/GLibEventLoop over real libglib); "
         "non-trivial = a session in which BOTH real loops invoke >= 3 handlers and open >= 1 nested loop")
 
 MANIFEST = dict(
@@ -48,9 +50,12 @@ MANIFEST = dict(
           "_close_no_drain F9(d), _mark_after_handlers F9(e), C20_refuted_more: nine further classes); (2) C20_agree_partial: for EVERY handler "
           "code, user state, fuel and list of top-level calls in a decidable fragment (one signal pending per level at a time, handlers "
           "registered before the enqueue, no ordinary exception out of a handler, ExitMainLoop only with no nested loop open, close_loop only "
-          "inside a nested loop with nothing to drain, no force_quit / process_signals / foreign submissions) the GLibEventLoop model ends "
-          "every top-level call like the MainLoop model and produces the same EHandler/EMark sequence up to the quit — by a simulation relation "
-          "between queues and GLib contexts; the six screen_scheduler_test scenarios are in the fragment (Example). Every witness is replayed on the two real loops (MainLoop; GLibEventLoop over the real "
+          "inside a nested loop with nothing to drain, no force_quit / process_signals) the GLibEventLoop model ends "
+          "every top-level call like the MainLoop model and produces the same user-visible sequence (EHandler/EMark/EUser) up to the quit — by a "
+          "simulation relation between queues and GLib contexts; typed input is inside (a foreign submission arriving when the loop is idle); "
+          "(3) C20_applications_agree_partial: the same for every APPLICATION (ScreenSem: table of screens, typed lines, quit dialog, actions) whose "
+          "run stays in the fragment: same screens shown in the same order, same input lines delivered to the same screens, same handlers; the "
+          "six screen_scheduler_test scenarios and a two-screen/modal/typed-input application are in the fragment (Examples). Every witness is replayed on the two real loops (MainLoop; GLibEventLoop over the real "
           "libglib-2.0) and differs there in the same way. Every generated session is run on both models and both implementations: "
           "model = implementation on the whole trace for each loop, every difference between the two real loops falls into a known class, and on "
           "every session in the fragment the two real loops agree."),
@@ -371,7 +376,8 @@ def gen_app_cases(rng, n):
 def run_apps(chk, tier):
     rng = chk.rng
     n = dict(quick=1500, thorough=15000)[tier]
-    cases = gen_app_cases(rng, n)
+    import witnesses
+    cases = [witnesses.APP_EXAMPLE[:6]] + gen_app_cases(rng, n)
     t0 = time.time()
     im = screen_impl.run_cases(cases, nproc=12)
     ig = c20_app.run_cases_glib(cases, nproc=12)
@@ -406,11 +412,22 @@ def run_apps(chk, tier):
                     kept.append(([200 + 8 * max(len(a[1]), len(again[1]))] + c[1:6], a, again))
     mm = lib.model_run("screen", [k[0] for k in kept], timeout=600)
     mg = lib.model_run("gscreen", [k[0] for k in kept], timeout=600)
+    fr = [r == [1] for r in lib.model_run("gscreenfrag", [k[0] for k in kept], timeout=600)]
+    st["in_fragment"] = 0; st["in_fragment_nontrivial"] = 0
     reported = set()
-    for (c, a, b), m1, m2 in zip(kept, mm, mg):
+    for (c, a, b), m1, m2, f in zip(kept, mm, mg, fr):
         oa, ob, o1, o2 = app_obs(a), app_obs(b), app_obs(m1), app_obs(m2)
         if app_nontrivial(a, b):
             st["nontrivial"] += 1; chk.nontriv(c)
+        if f:
+            # theorem C20_applications_agree_partial determines the answer
+            st["in_fragment"] += 1
+            st["in_fragment_nontrivial"] += 1 if app_nontrivial(a, b) else 0
+            if oa != ob:
+                chk.violation("fragment-agreement",
+                              "an application session in the fragment of theorem C20_applications_agree_partial (in_app_fragment = true) "
+                              "behaves differently on the real MainLoop and the real GLibEventLoop: outcomes %s / %s" % (a[0], b[0]),
+                              dict(kind="c20app", case=c, in_fragment=True), found=True)
         # full user sequence (not cut at the quit) + final stack for the correspondences
         fa = [a[0], [e for e in a[1] if e[0] == 19], a[2]]
         f1 = [m1[0], [e for e in m1[1] if e[0] == 19], m1[2]]
@@ -446,6 +463,16 @@ def run_apps(chk, tier):
         if len(chk.samples) < 6 and key is not None and app_nontrivial(a, b) and not any("application" in str(x) for x in chk.samples):
             chk.sample(dict(application_session=c, difference=key, user_events_main=detail["user_events_main"],
                             user_events_glib=detail["user_events_glib"]), limit=6)
+    # the application of Example C20_application_in_fragment: in the fragment, same key events on all four
+    ex = [k for k in kept if k[0][1:] == witnesses.APP_EXAMPLE[1:6]]
+    okex = False
+    if ex:
+        k = kept.index(ex[0])
+        keyev = lambda r: [[e[1], e[2][:2]] for e in r[1] if e[0] == 19 and e[1] in (3, 7, 8, 10)]
+        okex = fr[k] and all(keyev(r) == witnesses.APP_EXAMPLE_KEY_EVENTS and r[0] == [0, 0] for r in (ex[0][1], ex[0][2], mm[k], mg[k]))
+    if not okex:
+        chk.violation("app-example-not-reproduced", "the application session of Example C20_application_in_fragment does not behave as "
+                      "stated on the four back ends", dict(kind="c20app", case=witnesses.APP_EXAMPLE), found=False)
     ncmp = len(kept)
     st["compared"] = ncmp
     st["agreement_rate_percent"] = round(100.0 * st["agree"] / ncmp, 2) if ncmp else None
@@ -462,6 +489,7 @@ def replay_app(c):
     c2 = [200 + 8 * max(len(a[1]), len(b[1]))] + c[1:6]
     m1 = lib.model_run("screen", [c2])[0]
     m2 = lib.model_run("gscreen", [c2])[0]
+    print("in the fragment of C20_applications_agree_partial: %s" % (lib.model_run("gscreenfrag", [c2])[0] == [1]))
     print("model = implementation on the user-visible sequence: MainLoop %s, GLib %s (GLib whole trace: %s)"
           % (app_obs(a) == app_obs(m1), app_obs(b) == app_obs(m2), b[:4] == m2[:4]))
     oa, ob = app_obs(a), app_obs(b)
